@@ -45,6 +45,34 @@ CHECKS.update({
         note='NOT decided: LMDB\'s own MDB_APPEND ordering check.'),
 })
 
+CHECKS.update({
+    'C05': dict(
+        technique='byte-copy audit of the f32 codec + key discipline + must-pass-through write rule + truncation (sibling) rule + effect table over the build call graph',
+        text='No float arithmetic and one endianness class in the f32 codec; every item API addresses Key::item(self.index, item); every success return of add/append follows the item put; every vector decoded from a stored leaf and returned or re-encoded is truncated to the declared dimension; iterators scan exactly the item prefix pairing id and vector of the same entry; clear removes every key; nothing reachable from the build writes an item key except the header-only preprocess rewrite; metadata.items is the live item scan.',
+        design='DESIGN.md §4 C05',
+        note='NOT decided: heed/LMDB get/put fidelity; bit-exactness beyond "no arithmetic between API and store".'),
+    'C13': dict(
+        technique='typestate/RMW discipline over MIR: atomic-field access table, provenance of returned ids, constructor dataflow, Sync audit, closure-capture audit',
+        text='Uniqueness of ids under every schedule follows from RMW atomicity alone once: every counter access is a single fetch_add(..,1), every returned id is that fetch_add result or select() at it, the flag is monotone, the free pool is (0..last_id) minus used with the fresh counter starting at max(used)+1, the used set is the scan of the index own tree prefix, no &mut path to the generator exists, and rayon workers capture only shared references. These are facts about the code, so they cover all interleavings and thread counts.',
+        design='DESIGN.md §4 C13',
+        note='NOT decided: rayon / std atomics themselves (trusted); that the forest built in parallel satisfies C01 beyond id uniqueness.'),
+    'C16': dict(
+        technique='wire-schema extraction from encoder/decoder MIR (ordered append events, slice-offset chains) compared with a reference layout table',
+        text='Encoder rows = decoder rows = reference rows for KeyCodec, PrefixCodec, NodeId, NodeCodec (per variant, tags), MetadataCodec, VersionCodec, RoaringBitmapCodec; NodeMode discriminants and TryFrom table; metric names; header sizes/fields; native-endian element encoding on both sides; quantised packer emits one NE u64 per chunk of 64. A consistent encoder+decoder change, invisible to round-trip tests, is reported.',
+        design='DESIGN.md §4 C16',
+        note='NOT decided: roaring serialisation; decoding of real golden fixtures (needs data); NE vs LE not distinguished on this little-endian host.'),
+    'C17': dict(
+        technique='table extraction from MIR assignments + control dependence (post-dominators), write/read role provenance, per-element loop rule',
+        text='Old->new kind tables for key/left/right extracted and compared; all writes go to the destination under the re-tagged key, all reads from the source; one Updated key per pending element; metadata renamed on every path; the 0.5->0.6 step writes only Key::version(i) guarded (edge-dominated) by metadata presence of the same i over 0..=65535.',
+        design='DESIGN.md §4 C17',
+        note='NOT decided: that real v0.4 data decodes (needs data).'),
+    'C18': dict(
+        technique='edge dominance of the TypeId test over all writes + must-pass-through / per-element loop rules + truncation rule',
+        text='Same metric => no write; on a real change every path deletes the metadata, deletes every tree node and re-encodes every item in place from its own truncated vector with the new metric header/codec; no item is deleted; handle keeps index/dimensions; keys carry the own index; open refuses a different stored name.',
+        design='DESIGN.md §4 C18',
+        note='NOT decided: validity/searchability after the rebuild beyond C01/C02 clauses.'),
+})
+
 NOT_YET = {}
 
 
